@@ -237,6 +237,10 @@ func (p *plugin) SetPodMemoryLimit(proto protocol.HooksProtocol) error {
 			memoryLimit = -1
 			break
 		}
+		if containerLimit > math.MaxInt64-memoryLimit { // the sum does not fit into int64: no pod-level limit rather than a wrapped-around one
+			memoryLimit = -1
+			break
+		}
 		memoryLimit += containerLimit
 	}
 
